@@ -63,6 +63,10 @@ type Slot struct {
 	Cap   int     // capacity read from the header when it was returned
 	Moved int     // number of relocations seen for this allocation
 	seed  uint64
+	// unfilled: allocated by MallocLight — no pattern was written, only the header
+	// is verified (used for allocations whose contents an earlier, fully checked
+	// execution of the same deterministic prefix has already judged).
+	unfilled bool
 }
 
 // ranges returns the address ranges that make up the allocation's footprint.
@@ -176,7 +180,7 @@ type Tracker struct {
 	A      *memory.Allocator
 	Salt   uint32  // distinguishes the patterns of different Trackers on one allocator
 	Live   []*Slot // live allocations in allocation order
-	BG     []*Slot // background allocations (fixed after SealBG): checked, never freed by scripts
+	BG     []Slot // background allocations (fixed after SealBG): checked, never freed by scripts
 	bgr    [][2]uintptr
 	nextID uint32
 	// Touched collects the base address (hdr) of everything ever returned, for
@@ -195,8 +199,8 @@ func (t *Tracker) seedOf(id uint32) uint64 {
 }
 
 // adopt reads the header behind p and builds the Slot (no checks).
-func (t *Tracker) adopt(p *[]byte, size int) *Slot {
-	s := &Slot{ID: t.nextID, Size: size, P: p, Hdr: uintptr(unsafe.Pointer(p))}
+func (t *Tracker) adopt(p *[]byte, size int) Slot {
+	s := Slot{ID: t.nextID, Size: size, P: p, Hdr: uintptr(unsafe.Pointer(p))}
 	t.nextID++
 	s.seed = t.seedOf(s.ID)
 	s.Cap = cap(*p)
@@ -204,24 +208,26 @@ func (t *Tracker) adopt(p *[]byte, size int) *Slot {
 	return s
 }
 
-// Malloc performs A.Malloc(size), checks the returned slice (non-nil, len ==
-// size, cap >= size, whole capacity writable), fills it with its unique pattern
-// and records it as live. On failure the slot is not recorded.
-func (t *Tracker) Malloc(size int) (*Slot, *Fail) {
+// mallocChecked is the common part of Malloc / MallocLight / MallocBG.
+func (t *Tracker) mallocChecked(size int, fill bool) (Slot, *Fail) {
 	t.Ops++
 	p := t.A.Malloc(size)
 	if p == nil {
-		return nil, failf("malloc-nil", "Malloc(%d) returned nil (mmap failed?)", size)
+		return Slot{}, failf("malloc-nil", "Malloc(%d) returned nil (mmap failed?)", size)
 	}
 	if len(*p) != size {
-		return nil, failf("len-mismatch", "Malloc(%d) returned len %d", size, len(*p))
+		return Slot{}, failf("len-mismatch", "Malloc(%d) returned len %d", size, len(*p))
 	}
 	if cap(*p) < size {
-		return nil, failf("cap-too-small", "Malloc(%d) returned cap %d < size", size, cap(*p))
+		return Slot{}, failf("cap-too-small", "Malloc(%d) returned cap %d < size", size, cap(*p))
 	}
 	s := t.adopt(p, size)
 	if t.Touched != nil {
 		t.Touched(s.Hdr, s.Cap)
+	}
+	if !fill {
+		s.unfilled = true
+		return s, nil
 	}
 	// the capacity is memory the caller may use: it must be addressable up to the
 	// last byte. (Its contents beyond len are not judged later: relocation only
@@ -232,8 +238,67 @@ func (t *Tracker) Malloc(size int) (*Slot, *Fail) {
 		full[size] = 0x5A
 	}
 	FillPattern(*p, s.seed)
+	return s, nil
+}
+
+// Malloc performs A.Malloc(size), checks the returned slice (non-nil, len ==
+// size, cap >= size, whole capacity writable), fills it with its unique pattern
+// and records it as live. On failure the slot is not recorded.
+func (t *Tracker) Malloc(size int) (*Slot, *Fail) {
+	v, f := t.mallocChecked(size, true)
+	if f != nil {
+		return nil, f
+	}
+	s := &v
 	t.Live = append(t.Live, s)
 	return s, nil
+}
+
+// MallocLight is Malloc without writing the pattern (len/cap are still checked,
+// the header is still verified by CheckSlot/Free). For replayed prefixes only.
+func (t *Tracker) MallocLight(size int) (*Slot, *Fail) {
+	v, f := t.mallocChecked(size, false)
+	if f != nil {
+		return nil, f
+	}
+	s := &v
+	t.Live = append(t.Live, s)
+	return s, nil
+}
+
+// MallocBG performs n Mallocs (sizes cycled) straight into the background set,
+// without a heap object per allocation (page-filling preludes allocate ~10^4
+// slots per execution). each, if not nil, sees every new slot. Call SealBG after.
+func (t *Tracker) MallocBG(sizes []int, n int, fill bool, each func(*Slot)) *Fail {
+	if cap(t.BG)-len(t.BG) < n {
+		nb := make([]Slot, len(t.BG), len(t.BG)+n)
+		copy(nb, t.BG)
+		t.BG = nb
+	}
+	for i := 0; i < n; i++ {
+		v, f := t.mallocChecked(sizes[i%len(sizes)], fill)
+		if f != nil {
+			return f
+		}
+		t.BG = append(t.BG, v)
+		if each != nil {
+			each(&t.BG[len(t.BG)-1])
+		}
+	}
+	return nil
+}
+
+// FreeBG frees background slot i (verifying it first) and removes it from the set
+// (order of the rest is kept). Call SealBG afterwards.
+func (t *Tracker) FreeBG(i int) *Fail {
+	t.Ops++
+	s := t.BG[i]
+	if f := t.CheckSlot(&s); f != nil {
+		return f
+	}
+	t.BG = append(t.BG[:i], t.BG[i+1:]...)
+	t.A.Free(s.P)
+	return nil
 }
 
 // CheckSlot verifies one live slot: the header the caller's pointer designates
@@ -243,6 +308,9 @@ func (t *Tracker) CheckSlot(s *Slot) *Fail {
 	if len(b) != s.Size || cap(b) != s.Cap || dataPtr(s.P) != s.Data {
 		return failf("header-changed", "live allocation #%d size %d: slice header is now (len %d, cap %d), was (len %d, cap %d)",
 			s.ID, s.Size, len(b), cap(b), s.Size, s.Cap)
+	}
+	if s.unfilled {
+		return nil
 	}
 	if off := VerifyPattern(b, s.seed); off >= 0 {
 		return failf("content-corrupted", "live allocation #%d size %d (cap %d, moved %d times): byte %d differs from what was written",
@@ -271,13 +339,26 @@ func (t *Tracker) Free(s *Slot) *Fail {
 // SealBG moves everything currently live to the background set: still verified by
 // CheckAll, no longer offered to scripts, address ranges pre-sorted.
 func (t *Tracker) SealBG() *Fail {
-	t.BG = append(t.BG, t.Live...)
+	for _, s := range t.Live {
+		t.BG = append(t.BG, *s)
+	}
 	t.Live = nil
 	t.bgr = t.bgr[:0]
-	for _, s := range t.BG {
-		t.bgr = append(t.bgr, s.ranges()...)
+	sorted := true
+	for i := range t.BG {
+		s := &t.BG[i]
+		if s.Data == s.Hdr+uintptr(hdrLen) {
+			t.bgr = append(t.bgr, [2]uintptr{s.Hdr, s.Data + uintptr(s.Cap)})
+		} else {
+			t.bgr = append(t.bgr, s.ranges()...)
+		}
+		if n := len(t.bgr); n > 1 && t.bgr[n-1][0] < t.bgr[n-2][0] {
+			sorted = false
+		}
 	}
-	sort.Slice(t.bgr, func(i, j int) bool { return t.bgr[i][0] < t.bgr[j][0] })
+	if !sorted {
+		sort.Slice(t.bgr, func(i, j int) bool { return t.bgr[i][0] < t.bgr[j][0] })
+	}
 	for i := 1; i < len(t.bgr); i++ {
 		if t.bgr[i][0] < t.bgr[i-1][1] {
 			return failf("overlap", "two live allocations overlap: [%#x,%#x) and [%#x,%#x)", t.bgr[i-1][0], t.bgr[i-1][1], t.bgr[i][0], t.bgr[i][1])
@@ -330,8 +411,8 @@ func (t *Tracker) CheckAll() *Fail {
 			return f
 		}
 	}
-	for _, s := range t.BG {
-		if f := t.CheckSlot(s); f != nil {
+	for i := range t.BG {
+		if f := t.CheckSlot(&t.BG[i]); f != nil {
 			return f
 		}
 	}
@@ -349,8 +430,8 @@ func CheckDisjointAcross(ts []*Tracker) *Fail {
 		for _, s := range t.Live {
 			rs = append(rs, s.ranges()...)
 		}
-		for _, s := range t.BG {
-			rs = append(rs, s.ranges()...)
+		for i := range t.BG {
+			rs = append(rs, t.BG[i].ranges()...)
 		}
 	}
 	sort.Slice(rs, func(i, j int) bool { return rs[i][0] < rs[j][0] })
@@ -391,8 +472,8 @@ func (t *Tracker) Defrag(others ...*Tracker) (*DefragReport, *Fail) {
 		for _, s := range tr.Live {
 			byHdr[s.Hdr] = s
 		}
-		for _, s := range tr.BG {
-			byHdr[s.Hdr] = s
+		for i := range tr.BG {
+			byHdr[tr.BG[i].Hdr] = &tr.BG[i]
 		}
 	}
 	var mu sync.Mutex
@@ -466,10 +547,8 @@ func (t *Tracker) Defrag(others ...*Tracker) (*DefragReport, *Fail) {
 	// background ranges may have moved
 	for _, tr := range all {
 		if len(tr.BG) > 0 {
-			bg := tr.BG
-			tr.BG = nil
 			live := tr.Live
-			tr.Live = bg
+			tr.Live = nil
 			ff := tr.SealBG()
 			tr.Live = live
 			if ff != nil {
